@@ -536,7 +536,12 @@ fn share_case<T: Sh + std::fmt::Debug>(name: &str, seed: u64, r: &mut Rng, out: 
     let mut fresh_plugin = Plugin::new();
     fresh_plugin.insert(fresh.clone());
     let mut dec = PostcardDecoder::new(&bytes[..]);
-    let classes = match dec.decode::<T>(&fresh_plugin) {
+    let decoded = std::panic::catch_unwind(std::panic::AssertUnwindSafe(|| dec.decode::<T>(&fresh_plugin)));
+    let decoded = match decoded {
+        Ok(d) => d.map_err(|e| e.to_string()),
+        Err(p) => Err(format!("PANIC: {}", p.downcast_ref::<String>().cloned().or_else(|| p.downcast_ref::<&str>().map(|x| (*x).to_string())).unwrap_or_default())),
+    };
+    let classes = match decoded {
         Ok(back) => {
             if back != v { st.fails.push(format!("{name}: fresh interner: decoded {back:?} from {v:?}")); }
             let mut w2 = Walk { ids: w.ids.clone(), ..Walk::default() };
